@@ -29,7 +29,7 @@ pub struct UniversalParams { pub powers_of_g: TermTable, pub gamma_g: G1Affine, 
             forall|m: Seq<(usize, usize)>| #[trigger] pst_has(&r, m) ==> (exists|i: int| 0 <= i < min(keys@.len(), values@.len()) && (#[trigger] keys@[i]).v@ == m && pst_key(&r, m) == values@[i]@)
 { unimplemented!() }
 // `(0..n).flat_map(|var| vec![var; d]).collect()`: d copies of each variable index below n   [assumed]
-#[verifier::external_body] pub fn variable_multiset(n: usize, d: usize) -> (r: Vec<usize>) ensures r@.len() == n * d, forall|i: int| 0 <= i < r@.len() ==> (#[trigger] r@[i]) < n { unimplemented!() }
+#[verifier::external_body] pub fn variable_multiset(n: usize, d: usize) -> (r: Vec<usize>) ensures r@.len() == n * d, forall|i: int| 0 <= i < r@.len() ==> (#[trigger] r@[i]) < n && r@[i] == i / (d as int) { unimplemented!() }
 #[verifier::external_body] pub fn vec_usize_clone(v: &Vec<usize>) -> (r: Vec<usize>) ensures r@ == v@ { unimplemented!() }
 // `Combinations::new(set, k).collect()`: every produced selection has k entries, all taken from `set`   [assumed HERE as the meaning of collect(); the same fact is PROVED for
 // every `next()` of the real enumerator in units/pst13_combinations.rs; that the selections are exactly the
